@@ -39,7 +39,7 @@ BalanceClauses(e) ==
            ELSE WitnessScale(t, px, o, AllBins(t)) > 0)>>,
      <<"nanSetIsFilterSet", \A i \in Bins(e) : e.obs.nan[i + 1] = IsNaN(t, px, o, i)>>,
      <<"othersFinitePositive", \A i \in Bins(e) : e.obs.nan[i + 1] \/ e.obs.finite_pos[i + 1]>>,
-     <<"storedEqualsReturned", ~e.case.store \/ e.obs.stored_same>>,
+     <<"storedEqualsReturned", e.obs.stored_same>>,        \* stored weights = returned ones, in the collection that was balanced only
      <<"witnessWeightsExact", o.mode = "trans" \/ \A i \in Bins(e) :
           (~IsNaN(t, px, o, i) /\ WitnessScale(t, px, o, ScopeOf(t, o, i)) > 0) =>
              e.obs.w[i + 1] = WitnessWeightScaled(WitnessScale(t, px, o, ScopeOf(t, o, i)), o.rescale)>>,
